@@ -915,6 +915,17 @@ impl CraneliftCompiler {
                 // Do not delegate the check to the verifier, since registered functions can be
                 // changed after the program has been verified.
                 ebpf::CALL => {
+                    // Only helper calls are supported; an eBPF-to-eBPF call (src = 1) must not be
+                    // mistaken for a call to the helper whose id equals the displacement.
+                    if insn.src != 0 {
+                        return Err(Error::new(
+                            ErrorKind::Other,
+                            format!(
+                                "[CRANELIFT] Error: unsupported call type #{} (insn #{insn_ptr})",
+                                insn.src
+                            ),
+                        ));
+                    }
                     let func_ref = self
                         .helper_func_refs
                         .get(&(insn.imm as u32))
